@@ -234,3 +234,55 @@ def case_hdrcache(case):
     res["inside"] = inside
     res["nontrivial"] = inside and any(c in h for h in hs for c in ',"\n')
     return res
+
+
+# ---- named-paths runs on one reused CsvPaths instance: every run must give what the same run gives on a new instance ----
+GROUP_MEMBERS = ['$[*][yes()]', '$[1*][#1 == "x" push("s", #0)]', '$[1*][@c = count() print("l $.csvpath.line_number")]',
+                 '$[1*][line_number() == 2 -> stop_all()]', '$[1*][line_number() == 1 -> fail_all()]', '$[1*][#1 == "y" -> skip_all()]',
+                 '$[1*][line_number() == 1 -> advance_all(1)]', '$[1*][line_number() == 2 -> stop()]', '$[1*][@t = total_lines() yes()]',
+                 '$[*][line_number() == 3 -> fail()]']
+
+
+def gen_group_history(seed, i):
+    r = rng(seed, "group-history", i)
+    groups = {}
+    for g in ("ga", "gb"):
+        groups[g] = [r.choice(GROUP_MEMBERS) for _ in range(r.randint(1, 3))]
+    recs = [["a", "b"]] + [[f"v{k}", r.choice(["x", "y"])] for k in range(1, r.randint(3, 6))]
+    runs = [{"group": r.choice(["ga", "gb"]), "method": r.choice(["collect_paths", "fast_forward_paths", "next_paths", "collect_by_line",
+                                                                  "fast_forward_by_line", "next_by_line"])} for _ in range(r.randint(2, 4))]
+    return {"groups": groups, "recs": recs, "runs": runs}
+
+
+def _obs(caller, mobs, raised):
+    keep = ("identity", "lines", "printouts", "valid", "result_valid", "stopped", "match_count", "scan_count", "errors", "line_number")
+    return {"caller": caller, "raised": raised,
+            "members": [dict({k: m.get(k) for k in keep}, variables=canon_vars(m.get("variables"))) for m in mobs]}
+
+
+def case_group_history(case):
+    import real_group as RG
+    import realenv
+
+    res = {"case": case, "disagree": [], "oracle": [], "nontrivial": len(case["runs"]) >= 2}
+    # reference: every run on a new instance, in a store of its own
+    refs = []
+    for run in case["runs"]:
+        realenv.reset_dirs()
+        cp = RG.new_csvpaths(policy=["collect"], csvpath_policy=["collect", "print"])
+        for g, paths in case["groups"].items():
+            RG.setup_group(cp, g, paths, "food", case["recs"])
+        refs.append(_obs(*RG.run_group(cp, run["group"], "food", run["method"])))
+    # the history on one instance
+    realenv.reset_dirs()
+    cp = RG.new_csvpaths(policy=["collect"], csvpath_policy=["collect", "print"])
+    for g, paths in case["groups"].items():
+        RG.setup_group(cp, g, paths, "food", case["recs"])
+    for k, run in enumerate(case["runs"]):
+        got = _obs(*RG.run_group(cp, run["group"], "food", run["method"]))
+        if got != refs[k]:
+            key = next((x for x in ("raised", "caller") if got[x] != refs[k][x]), "members")
+            res["oracle"].append({"what": f"a named-paths run on a reused CsvPaths gives other results than on a new instance ({key})", "run": k,
+                                  "reused": got[key] if key != "members" else got["members"], "new_instance": refs[k][key] if key != "members" else refs[k]["members"]})
+            break
+    return res
